@@ -553,6 +553,10 @@ func main() {
 				}
 			}
 			add("c03/free-running-race/escaping", "8 goroutines concurrent escapes", func(p *part) { bodyEscaping(p, rounds*5) })
+			for _, lay := range []string{"TextLayout", "JSONLayout"} {
+				lay := lay
+				add("c03/free-running-race/hooks/"+lay, fmt.Sprintf("8 goroutines x %d events, per-call hook time, one shared context-field slice with spare capacity (sampling, -race)", rounds), func(p *part) { bodyHooks(p, rounds, lay) })
+			}
 		case "C04", "C12":
 			for _, pol := range []log.BufferFullPolicy{log.BufferFullPolicyBlock, log.BufferFullPolicyDiscard, log.BufferFullPolicyDiscardOldest} {
 				pol := pol
